@@ -4,9 +4,9 @@ import svc_common
 
 PROP = dict(
     id="C11",
-    corr=["Model/SvcCorr.vo", "Model/C09Corr.vo"],
+    corr=["Model/SvcCorr.vo", "Model/C09Corr.vo", "Model/C25Corr.vo"],
     design_ref="DESIGN.md §6 C11",
-    technique="Coq theorems: CheckRequestWrapperAction succeeds only under the spelled-out conditions (any wrapped tree), reflective check that every agreement-creating state of the generated tables sits under that wrapper, service-level pre-check lemmas, swap-out balance lemma; vm_compute correspondence of request handling against the real SwapService; monitor = the property's conjunction evaluated on every observed request",
+    technique="Coq theorems: CheckRequestWrapperAction succeeds only under the spelled-out conditions (any wrapped tree), reflective check that every agreement-creating state of the generated tables sits under that wrapper, service-level pre-check lemmas, swap-out balance lemma; vm_compute correspondence of request handling against the real SwapService; monitor = the property's conjunction evaluated on every observed request; plus the operation-sequence family of C25 on the real policy.Policy (the lists the admission check reads are what the operator's edits made them), judged with C25's model and monitor",
     level_text="Machine-checked: an agreement can only be produced by an action tree rooted at CheckRequestWrapperAction (checked on the tables regenerated from the code) which succeeds only if swaps are enabled, the chain enabled, version 7, amount >= minimum, asset/network match, requester allowlisted and not suspicious; requests reach a state machine only after premium <= limit, capacity, probe, unknown id and free channel; swap-out needs balance >= amount + fee. Comparisons use amount*1000 mod 2^64 as the code does; exactness below 2^64/1000 is a theorem, the region above is a known finding.",
     level_note="Trusted: Coq kernel, models of actions.go/service.go tied by correspondence, fakes, premium computation (C27). The end-to-end implication 'agreement message sent => all conditions' is decided on observed runs by the monitor and in Coq by the composition of the listed lemmas (action-level + table check + service pre-checks), not as one trace theorem.",
     assumptions=["policy answers are constant during one request"],
@@ -27,6 +27,28 @@ def classify(c):
 def run(ctx):
     svc_common.run_svc(ctx, "c11_monitor", "c11_clauses", classify,
                        lambda c: "request answered against the admission conditions (clauses %s)" % sorted(set(c.get("_clauses") or [])))
+    run_policy_state(ctx)
+
+
+def run_policy_state(ctx):
+    """'allowlisted (or all peers accepted) and not suspicious' is evaluated on the policy object's lists: the admission
+    conditions hold only if those lists are what the operator's edits made them. The operation-sequence family of C25
+    (add / remove allowlisted and suspicious peers, reload, restart on the real policy.Policy) is run here too and judged
+    with C25's model and monitor; C25's own known findings (signatures listed for C25) are not judged for C11."""
+    import importlib
+    import vlib
+    c25 = importlib.import_module("C25")
+    known = {k["signature"] for k in vlib.load_known_findings() if k.get("property") == "C25" and k.get("status", "known") == "known"}
+    d = ctx.harness("c25", outdir=ctx.work + "/policy", args=["-n", 60 if ctx.quick else 1200])
+    if d is None:
+        return
+    res = vlib.eval_cases(d)
+    keep = lambda i: res["cases"][i].get("fam") == "seq" and c25.sig(res["cases"][i]) not in known
+    res["monitor_violations"] = [i for i in res["monitor_violations"] if keep(i)]
+    res["mismatches"] = [i for i in res["mismatches"] if keep(i)]
+    ctx.rules.append("policy-state family (shared with C25, only operation sequences, C25's known findings excluded): add / remove allowlisted and suspicious peers, disable / enable, reload, restart on the real policy.Policy over a temp file; after every step the allowlist, the suspicious list and the three query functions the admission check uses are compared with the abstract policy machine")
+    ctx.absorb(res, "policy", signature=lambda c: "policy:" + c25.sig(c), mismatch_is_violation=False,
+               describe=lambda c: "after an operator edit the real policy.Policy's allowlist / suspicious list (what IsPeerAllowed / IsPeerSuspicious answer at admission) is not what the edits made it (%s): a peer that should be refused is admitted or the other way round" % c25.sig(c))
 
 
 def search(ctx):
